@@ -50,7 +50,7 @@ CONSTANTS Dev,       \* enabled recorded deviations, subset of DevNames
 Db == {"d1", "d2"}
 Privs == {"none", "read", "write", "all"}
 PrivSeq == <<"none", "read", "write", "all">>
-DevNames == {"firstAdminMulti"}
+DevNames == {"cardNoPriv", "cardFromDefault", "fromDbDefault", "cqWeak", "firstAdminMulti"}
 
 \* canonical user order (the harness uses the same indexing): i-1 = admin*16 + priv(d1)*4 + priv(d2)
 NUsers == 32
@@ -94,14 +94,18 @@ Stmts ==
   \* list is the subject of C16_ListingOnlyGranted below (result filtering, like SHOW DATABASES)
   \cup {St("ShowMeasurements", "wild", "-", "-", {R(DFL)})}
   \* a database-qualified measurement in FROM is what the rewritten statement reads
-  \* (query/statement_rewriter.go rewriteSources); found not enforced (F23), repaired by patch 04
-  \cup {St(c, "from", a, "-", {R(a)}) : c \in {"ShowFieldKeys", "ShowSeries"}, a \in Db}
-  \* cardinality statements read the ON / default database also when they have no FROM clause;
-  \* found not enforced (F21: no privilege at all; F22: default instead of ON database), repaired by patch 04
-  \cup {St(c, "default", "-", "-", {R(DFL)}) : c \in CardFromClasses}
-  \cup {St(c, f, a, "-", {R(a)}) : c \in CardFromClasses, f \in {"on", "exact_on", "on_from"}, a \in Db}
-  \cup {St(c, "exact_default", "-", "-", {R(DFL)}) : c \in CardExactClasses}
-  \cup {St(c, f, a, "-", {R(a)}) : c \in CardExactClasses, f \in {"exact_on", "exact_on_from"}, a \in Db}
+  \* (query/statement_rewriter.go rewriteSources); the implementation demands READ on the ON/default
+  \* database instead: recorded deviation fromDbDefault (F23)
+  \cup {StDev(c, "from", a, "-", {R(a)}, {R(DFL)}, "fromDbDefault") : c \in {"ShowFieldKeys", "ShowSeries"}, a \in Db}
+  \* cardinality statements read the ON / default database also when they have no FROM clause; the
+  \* implementation derives their privileges from the FROM clause alone: none at all without FROM
+  \* (cardNoPriv, F21), the default database instead of the ON database with it (cardFromDefault, F22)
+  \cup {StDev(c, "default", "-", "-", {R(DFL)}, {}, "cardNoPriv") : c \in CardFromClasses}
+  \cup {StDev(c, f, a, "-", {R(a)}, {}, "cardNoPriv") : c \in CardFromClasses, f \in {"on", "exact_on"}, a \in Db}
+  \cup {StDev(c, "on_from", a, "-", {R(a)}, {R(DFL)}, "cardFromDefault") : c \in CardFromClasses, a \in Db}
+  \cup {StDev(c, "exact_default", "-", "-", {R(DFL)}, {}, "cardNoPriv") : c \in CardExactClasses}
+  \cup {StDev(c, "exact_on", a, "-", {R(a)}, {}, "cardNoPriv") : c \in CardExactClasses, a \in Db}
+  \cup {StDev(c, "exact_on_from", a, "-", {R(a)}, {R(DFL)}, "cardFromDefault") : c \in CardExactClasses, a \in Db}
   \cup {St(c, "default", "-", "-", {R(DFL)}) : c \in {"Select", "Explain"}}
   \cup {St(c, f, a, "-", {R(a)}) : c \in {"Select"}, f \in {"from", "subq"}, a \in Db}
   \cup {St("Explain", f, a, "-", {R(a)}) : f \in {"from", "analyze_from"}, a \in Db}
@@ -114,12 +118,11 @@ Stmts ==
   \cup {St(c, "on", a, "-", {W(a)}) : c \in {"DropContinuousQuery", "DropRetentionPolicy"}, a \in Db}
   \* DROP MEASUREMENT removes data of the default database; the implementation demands admin (stricter)
   \cup {StStrict("DropMeasurement", "default", "-", "-", {W(DFL)}, {ADMIN})}
-  \* a continuous query reads its sources and writes its target for ever, without a user; found not
-  \* enforced (F25: READ on the ON database sufficed), repaired by patch 04.  The implementation also
-  \* demands READ on the ON database when the query reads another one (stricter).
-  \cup {St("CreateContinuousQuery", "on", a, "-", {R(a), W(a)}) : a \in Db}
+  \* a continuous query reads its sources and writes its target for ever, without a user; the
+  \* implementation demands READ on the ON database only: recorded deviation cqWeak (F25)
+  \cup {StDev("CreateContinuousQuery", "on", a, "-", {R(a), W(a)}, {R(a)}, "cqWeak") : a \in Db}
   \cup {St("CreateContinuousQuery", "on_into", a, b, {R(a), W(b)}) : a \in Db, b \in Db}
-  \cup {StStrict("CreateContinuousQuery", "on_from", a, b, {R(b), W(a)}, {R(a), R(b), W(a)}) : a \in Db, b \in Db}
+  \cup {StDev("CreateContinuousQuery", "on_from", a, b, {R(b), W(a)}, {R(a)}, "cqWeak") : a \in Db, b \in Db}
 
 Classes == {s.cls : s \in Stmts}
 CodeReq(s) == IF s.dev # "" /\ s.dev \in Dev THEN s.weak ELSE s.code
@@ -139,7 +142,7 @@ RepOps == {Q(<<s>>) : s \in RepStmts} \cup WriteOps
           \cup (IF PairMode # "none" THEN {Q(<<s, Benign>>) : s \in RepStmts} \cup {Q(<<Benign, s>>) : s \in RepStmts} ELSE {})
 
 \* "W": a small family for the non-vacuity witnesses: the statements with a recorded deviation, and the writes
-WitnessOps == {Q(<<s>>) : s \in {s \in Stmts : s.cls \in {"CreateUser", "ShowDatabases", "DropDatabase"}}}
+WitnessOps == {Q(<<s>>) : s \in {s \in Stmts : s.dev # "" \/ s.cls \in {"CreateUser", "ShowDatabases", "DropDatabase"}}}
               \cup {Q(<<s, Benign>>) : s \in {s \in Stmts : s.cls = "CreateUser"}} \cup WriteOps
 Ops == IF Family = "B" THEN RepOps
        ELSE IF Family = "W" THEN WitnessOps
